@@ -258,6 +258,22 @@ pub enum Op {
     /// cancellation point marker (client abandons the hasher here): no-op at exec
     Cancel,
 
+    // ---- b3sum as a process in a sandbox directory (C12 / C13) and special files (C11) ----
+    CliFile { path_hex: String, data: usize },
+    /// 0 delete, 1 modify content, 2 truncate, 3 replace by a directory
+    CliFsFault { path_hex: String, kind: u8 },
+    CliHash { paths: Vec<String>, flags: CliFlags, stdin: Option<usize>, save: Option<usize> },
+    CliDamage { cf: usize, kind: Damage },
+    CliCheck { cfs: Vec<usize>, flags: CliFlags, quiet: bool, via_stdin: bool },
+    /// in-process: format the line b3sum prints for this path, parse it back
+    PathRoundTrip { path_hex: String, tag: bool, crlf: bool },
+    /// in-process: every single-character mutation of the line for this path
+    ParseMutations { path_hex: String, tag: bool, crlf: bool },
+    /// in-process: one explicit line
+    ParseLine { line_hex: String },
+    /// update_mmap / update_mmap_rayon / update_reader(File) on a special file kind
+    FileKinds { kind: u8 },
+
     // ---- C library node ----
     CInit { slot: usize, flavour: u8, mode: Mode, raw: bool },
     CUpdate { c: usize, data: usize, off: usize, len: usize, tbb: Option<JoinPolicy> },
@@ -270,6 +286,15 @@ pub enum Op {
 impl Op {
     pub fn kind(&self) -> &'static str {
         match self {
+            Op::CliFile { .. } => "CliFile",
+            Op::CliFsFault { .. } => "CliFsFault",
+            Op::CliHash { .. } => "CliHash",
+            Op::CliDamage { .. } => "CliDamage",
+            Op::CliCheck { .. } => "CliCheck",
+            Op::PathRoundTrip { .. } => "PathRoundTrip",
+            Op::ParseMutations { .. } => "ParseMutations",
+            Op::ParseLine { .. } => "ParseLine",
+            Op::FileKinds { .. } => "FileKinds",
             Op::NewHasher { .. } => "NewHasher",
             Op::Absorb { .. } => "Absorb",
             Op::Count { .. } => "Count",
@@ -307,6 +332,44 @@ impl Op {
     }
 }
 
+#[derive(Serialize, Deserialize, Clone, Debug, PartialEq, Default)]
+pub struct CliFlags {
+    /// data index whose bytes are piped to stdin as the key (any length; only 32 is valid)
+    #[serde(default)]
+    pub keyed: Option<usize>,
+    /// data index of the context
+    #[serde(default)]
+    pub derive: Option<usize>,
+    #[serde(default)]
+    pub length: Option<u64>,
+    #[serde(default)]
+    pub seek: Option<u64>,
+    #[serde(default)]
+    pub no_mmap: bool,
+    #[serde(default)]
+    pub num_threads: Option<u8>,
+    #[serde(default)]
+    pub raw: bool,
+    #[serde(default)]
+    pub no_names: bool,
+    #[serde(default)]
+    pub tag: bool,
+    /// an extra flag that clap must reject in this combination (e.g. "--tag" with --check)
+    #[serde(default)]
+    pub bogus: Option<String>,
+}
+
+#[derive(Serialize, Deserialize, Clone, Debug, PartialEq)]
+pub enum Damage {
+    Crlf,
+    /// edit 0 substitute, 1 insert, 2 delete; position counted in chars of the line
+    Line { line: usize, pos: usize, edit: u8, ch: String },
+    AppendLine { text_hex: String },
+    TruncateBytes { n: usize },
+    InvalidUtf8 { at: usize },
+    DropFinalNewline,
+}
+
 #[derive(Serialize, Deserialize, Clone, Debug, PartialEq)]
 pub struct Violation {
     pub property: String,
@@ -328,4 +391,7 @@ pub struct ReplayFile {
     /// for config-divergence replays: the two levels whose results differ
     #[serde(default)]
     pub levels: Vec<Level>,
+    /// runs to execute first in the same process (only when the violation depends on process history)
+    #[serde(default)]
+    pub prelude: Vec<Plan>,
 }
